@@ -359,12 +359,20 @@ func (e dispatcherCompleteEvent) apply(s *state) {
 	infoHash := e.dispatcher.InfoHash()
 
 	s.conns.ClearBlacklist(infoHash)
-	s.announceQueue.Eject(infoHash)
 	ctrl, ok := s.torrentControls[infoHash]
 	if !ok {
+		s.announceQueue.Eject(infoHash)
 		s.log("dispatcher", e.dispatcher).Error("Completed dispatcher not found")
 		return
 	}
+	if ctrl.dispatcher != e.dispatcher {
+		// The torrent was removed and added again while this event was queued:
+		// the event must not eject, answer or announce on behalf of the new
+		// download (the removal already ejected the old one).
+		s.log("dispatcher", e.dispatcher).Info("Ignoring completion of a replaced dispatcher")
+		return
+	}
+	s.announceQueue.Eject(infoHash)
 	for _, errc := range ctrl.errors {
 		errc <- nil
 	}
